@@ -89,8 +89,12 @@ def onNotif (S : Segmenter) (alnum : Char → Bool) (c : Changeset) : Notif → 
 def onNotifs (S : Segmenter) (alnum : Char → Bool) (c : Changeset) (ns : List Notif) : Changeset :=
   ns.foldl (onNotif S alnum) c
 
+/-- `truncate(len)`: discards the changes above the mark together with the groups they opened -/
 def truncate (c : Changeset) (len : Nat) : Changeset :=
-  { c with undos := c.undos.drop (c.undos.length - len) }
+  let dropped := c.undos.take (c.undos.length - len)
+  let begins := (dropped.filter (· == .begin)).length
+  let ends := (dropped.filter (· == .end_)).length
+  { c with undos := c.undos.drop (c.undos.length - len), level := (c.level + ends) - begins }
 
 /-- `last_insert` -/
 def lastInsert (c : Changeset) : Option Text :=
